@@ -111,7 +111,7 @@ def sections_with(text, option):
 
 
 @st.composite
-def config_case(draw, bases=None, generated=True, min_end=None, sampling_focus=False, small_sampling=False, g4_one_in=8, g5_one_in=8, g6_one_in=8,
+def config_case(draw, bases=None, generated=True, min_end=None, sampling_focus=False, small_sampling=False, g4_one_in=8, g5_one_in=8, g6_one_in=8, g7_one_in=8,
                 cells_only=False,
                 composites_only=False, max_events=(300, 1500)):
     """A configuration = shipped base + parameter edits (never wiring edits) + simulation seed + event budget."""
@@ -135,6 +135,25 @@ def config_case(draw, bases=None, generated=True, min_end=None, sampling_focus=F
                           repr(round(draw(st.floats(min_end[0], min_end[1])), 4))))
         return {"base": G4, "g4_N": N, "edits": [list(e) for e in edits], "seed": draw(st.integers(0, 2 ** 31)),
                 "events": draw(st.integers(max_events[0], max_events[1])), "cluster": "lattice"}
+    if generated and not cells_only and bases is None and draw(st.integers(0, g7_one_in - 1)) == 0:
+        # generated family G7 (three-site molecules with molecule/atom mode switching)
+        N = draw(st.integers(2, 4))
+        edits = [("SingleIndependentActivePeriodicDirectionEndOfChainEventHandler", "chain_time",
+                  repr(round(draw(st.floats(0.3, 3.0)), 5))),
+                 ("RootToLeafMode", "chain_length", repr(round(draw(st.floats(0.2, 2.0)), 4))),
+                 ("LeafToRootMode", "chain_length", repr(round(draw(st.floats(0.2, 2.0)), 4))),
+                 ("FixedIntervalSamplingEventHandler", "sampling_interval", repr(round(draw(st.floats(0.05, 2.0)), 4)))]
+        if draw(st.booleans()):
+            edits.append(("SingleProcessMediator", "scheduler", draw(st.sampled_from(["heap_scheduler",
+                                                                                      "list_scheduler"]))))
+        if min_end is not None:
+            edits.append(("FinalTimeEndOfRunEventHandler", "end_of_run_time",
+                          repr(round(draw(st.floats(min_end[0], min_end[1])), 4))))
+        case = {"base": G7, "g7_N": N, "edits": [list(e) for e in edits], "seed": draw(st.integers(0, 2 ** 31)),
+                "events": draw(st.integers(max_events[0], max_events[1]))}
+        if draw(st.booleans()):
+            case["cluster"] = draw(st.sampled_from([0.3, 0.5]))
+        return case
     if generated and bases is None and draw(st.integers(0, g6_one_in - 1)) == 0:
         # generated family G6 (hard-disk dipoles with a cell system, velocities of either sign)
         N = draw(st.integers(2, 6))
@@ -326,6 +345,37 @@ def g6_text(N, general, wide_cells):
     return text
 
 
+G7 = "G7:water_mode_switching"
+
+
+def g7_text(N):
+    """Generated family G7: the shipped dipole_motion.ini wiring (molecule mode <-> atom mode through the two
+    RootLeafUnitActiveSwitchers, Coulomb and repulsive factors in both modes, harmonic bonds in atom mode) populated
+    with N three-site water molecules instead of two dipoles: random_node_creator, charges, bond parameters and box of
+    the shipped water configurations, and a harness-written factor file in the format of factor_set_water.txt
+    (two O-H bonds, O-O repulsion, Coulomb between all sites of two molecules).  No shipped configuration combines
+    composite objects of more than two point masses with mode switching."""
+    from . import build
+    text = shipped_text("2018_JCP_149_064113/dipoles/dipole_motion.ini")
+    path = os.path.join(build.scratch_root(), "verif_g7_factors.txt")
+    if not os.path.exists(path):
+        with open(path, "w") as f:
+            f.write("[0, 1], Harmonic\n[1, 2], Harmonic\n[1, 4], Repulsive\n[0, 1, 2, 3, 4, 5], Coulomb\n")
+    text = set_option(text, "FactorTypeMaps", "filename", path)
+    text = set_option(text, "HypercubicSetting", "system_length", "10.0")
+    text = set_option(text, "RandomInputHandler", "random_node_creator", "water_random_node_creator")
+    text = set_option(text, "RandomInputHandler", "number_of_root_nodes", str(N))
+    text = text.replace("[DipoleRandomNodeCreator]", "[WaterRandomNodeCreator]")
+    text = set_option(text, "ElectricChargeValues", "charge_values", "0.41, -0.82, 0.41")
+    text = set_option(text, "HarmonicPotential", "equilibrium_separation", "1.012")
+    text = set_option(text, "HarmonicPotential", "prefactor", "529.581")
+    text = set_option(text, "RepulsivePotential", "prefactor", "100.0")
+    text = set_option(text, "HarmonicLeaf", "number_event_handlers", "2")
+    for sec in ("CoulombLeaf", "CoulombRoot", "RepulsiveLeaf", "RepulsiveRoot"):
+        text = set_option(text, sec, "number_event_handlers", str(max(1, N - 1)))
+    return text
+
+
 G5 = "G5:cuboid_box_cells"
 
 
@@ -360,6 +410,11 @@ def materialise(case):
         return text
     if case["base"] == G6:
         text = g6_text(case["g6"]["N"], case["g6"]["general"], case["g6"]["wide_cells"])
+        for sec, opt, val in case["edits"]:
+            text = set_option(text, sec, opt, val)
+        return text
+    if case["base"] == G7:
+        text = g7_text(case["g7_N"])
         for sec, opt, val in case["edits"]:
             text = set_option(text, sec, opt, val)
         return text
